@@ -687,6 +687,15 @@ func (w *world) swap(i int, st simcore.Step, fk string, fa int64) bool {
 		}
 	}
 	B := radd(rint(2+2*buckets), rmul(rint(buckets+1), rfromInt(ceilRat(rate))))
+	if !exactIn && ideal.endSqrt != nil && ideal.endSqrt.Sign() > 0 {
+		// exact-out: the output still to be filled is an 18-digit decimal; near a drained reserve the marginal
+		// input per output unit (the end price) is enormous, and 1e-18 of output is worth that many input units
+		end := rmul(ideal.endSqrt, ideal.endSqrt)
+		if zeroForOne {
+			end = rquo(rint(1), end)
+		}
+		B = radd(B, rfromInt(ceilRat(rquo(rmul(end, rint(4*(buckets+1))), rfromInt(pow10(18).BigInt())))))
+	}
 	liqTerm := rmul(ideal.maxLiq, rnew().SetFrac64(4*buckets, 1))
 	liqTerm = rquo(liqTerm, rfromInt(pow10(36).BigInt()))
 	// token0 amounts are L*(1/sa - 1/sb): a 1e-36 rounding of a sqrt price s moves them by L*1e-36/s^2
